@@ -444,7 +444,28 @@ func c03Run(c *h.Ctx) {
 			default:
 				op.Expect = "error"
 			}
-			_, err = s.Update(joins, leaves)
+			var seatMap map[string]int
+			seatMap, err = s.Update(joins, leaves)
+			if err == nil {
+				// the returned seat map names every seated player with his seat (the caller learns random seats from it)
+				t := s.TE.GetTable()
+				bad := len(seatMap) != len(t.State.PlayerStates)
+				for _, ps := range t.State.PlayerStates {
+					if seat, ok := seatMap[ps.PlayerID]; !ok || seat != ps.Seat {
+						bad = true
+					}
+				}
+				if bad {
+					c.Violate("C03/batch-update-returned-wrong-seat-map", fmt.Sprintf("UpdateTablePlayers(join=%v, leave=%v) returned %v, the table seats %v", joins, leaves, seatMap, func() map[string]int {
+						m := map[string]int{}
+						for _, ps := range t.State.PlayerStates {
+							m[ps.PlayerID] = ps.Seat
+						}
+						return m
+					}()), witness())
+					return
+				}
+			}
 			if err == nil && op.Expect == "ok" {
 				for _, id := range leaves {
 					if seat, ok := model.seatOf[id]; ok {
